@@ -6,11 +6,20 @@ import jobs
 
 ALL = ["C%02d" % i for i in range(1, 21)]
 NA_REASON = {
+    "C01": "end-to-end co-execution of client and server fragment/ack machines: even one server step needed a 10 GB query after "
+           "heavy cell splitting (see DESIGN.md 1b); a multi-fragment two-program run is out of reach of bounded symbolic execution "
+           "here, and integrity under arbitrary loss rests on zlib's Adler-32, which is not encodable. Codec/hostname exactness is "
+           "covered by C07/C08/C09.",
+    "C10": "needs the strict RFC 1035 oracle applied to write_dns()/dns_encode_*() output: the writer->wire path gave no verdict "
+           "within memory (same obstacle as the full C09); only forward_query's relayed datagram is parsed by the oracle (under C20)",
+    "C16": "two-step re-delivery lemma (MODE 5 of the step harness) not built in the time available: one ping/data step already "
+           "costs 2-10 GB per cell; the single-step parts (cache/qmem answer paths are executed in the C14/C05 ping/data cells) do "
+           "not establish the property, so it is not claimed",
     "C02": "liveness/recovery over two timer-driven select() loops under fairness: not expressible as a bounded "
            "safety assertion over single steps, and a from-any-state bounded-recovery search needs >=15 real steps per side "
            "with 64 KiB states (each step 10-40 s of solver time) - outside the reach of bounded symbolic execution here",
-    "C11": "quantifies over relay families applied to a ~15-step two-program handshake with retries and timeouts; only the two "
-           "size-monotonicity lemmas are solver-checkable and they are checked under C09",
+    "C11": "quantifies over relay families applied to a ~15-step two-program handshake with retries and timeouts; the "
+           "solver-checkable size-monotonicity lemmas need the full answer writer->reader path, which gave no verdict within memory",
 }
 m = {
     "version": 1,
